@@ -540,7 +540,7 @@ func cmdCheck(args []string) int {
 		cfg.Entry = es.name
 		cfg.PkgDir = es.file.pkgDir
 		cfg.Tier = *tier
-		cfg.SleepBound = *tier != "thorough" // default per tier, see DESIGN.md 2.4; "sleepbound=" on the entry overrides
+		cfg.SleepBound = true // the reduction respects the pre-emption bound (DESIGN.md 2.6); "sleepbound=0" on an entry opts out
 		if err := cfg.apply(es.common); err != nil {
 			return fail(err.Error())
 		}
